@@ -369,3 +369,39 @@ seeded("c10-childiter-bypassed", ["C10"], [(DEX, "for child in childiter(node.ch
 seeded("c10-import-children-reversed", ["C10"], [(DIM, "        for child in children:\n", "        for child in reversed(children):\n")], ["X5"])
 seeded("c10-import-parent-not-passed", ["C10"], [(DIM, "self.__import(child, parent=node)", "self.__import(child, parent=parent)")], ["X5"])
 benign("c10-copy-via-copy-method", ["C10"], [(DIM, "        attrs = dict(data)\n", "        attrs = data.copy()\n")])
+
+# ----------------------------------------------------- C04 / C05 / C19 / C20
+UT = "anytree/util/__init__.py"
+seeded("c04-height-cached-on-node", ["C04", "C18"], [(NM, "        children = self.__children_or_empty\n        if children:\n            return max(child.height for child in children) + 1\n        return 0",
+                                                      "        if hasattr(self, \"_height\"):\n            return self._height\n        children = self.__children_or_empty\n        if children:\n            self._height = max(child.height for child in children) + 1\n            return self._height\n        return 0")], ["N1", "M4"])
+seeded("c04-path-lru-cache", ["C04"], both("    @property\n    def _path(self):\n", "    @property\n    @functools.lru_cache()\n    def _path(self):\n"), ["N1"])
+seeded("c04-depth-module-cache", ["C04"], [(UT, "def leftsibling(node):", "_CACHE = {}\n\n\ndef leftsibling(node):"),
+                                           (UT, "    if node.parent is not None:\n        pchildren = node.parent.children\n        idx = _index(pchildren, node)\n        if idx:",
+                                            "    if id(node) in _CACHE:\n        return _CACHE[id(node)]\n    if node.parent is not None:\n        pchildren = node.parent.children\n        idx = _index(pchildren, node)\n        if idx:")], ["N1"])
+seeded("c04-is-root-truthiness", ["C04", "C17"], both("        return self.parent is None\n", "        return not self.parent\n"), ["N2", "T3"])
+seeded("c04-children-getter-sorts-in-place", ["C04", "C01"], both("        return tuple(self.__children_or_empty)\n", "        self.__children_or_empty.sort(key=id)\n        return tuple(self.__children_or_empty)\n"), ["N1", "W1"])
+seeded("c04-siblings-root-case-dropped", ["C04"], both("        parent = self.parent\n        if parent is None:\n            return tuple()\n        return tuple(node for node in parent.children if node is not self)",
+                                                       "        parent = self.parent\n        return tuple(node for node in parent.children if node is not self)"), ["N2"])
+benign("c04-ancestors-rewritten", ["C04"], both("        if self.parent is None:\n            return tuple()\n        return self.parent.path", "        parent = self.parent\n        if parent is None:\n            return ()\n        return parent.path"))
+
+IT = "anytree/iterators/"
+seeded("c05-iterator-marks-nodes", ["C05"], [(IT + "preorderiter.py", "            if filter_(child_):\n                yield child_\n", "            child_.visited = True\n            if filter_(child_):\n                yield child_\n")], ["I1"])
+seeded("c05-iterator-detaches", ["C05"], [(IT + "postorderiter.py", "                if filter_(child):\n                    yield child\n", "                if filter_(child):\n                    yield child\n                else:\n                    child.parent = None\n")], ["I1"])
+seeded("c05-get-children-mutates-arg", ["C05"], [(IT + "abstractiter.py", "        return [child for child in children if not stop(child)]", "        children.reverse()\n        return [child for child in children if not stop(child)]")], ["I1"])
+seeded("c05-zigzag-starts-reversed", ["C05"], [(IT + "zigzaggroupiter.py", "                    yield next(_iter)\n                    yield tuple(reversed(next(_iter)))\n", "                    yield tuple(reversed(next(_iter)))\n                    yield next(_iter)\n")], ["I2"])
+seeded("c05-zigzag-never-reverses", ["C05"], [(IT + "zigzaggroupiter.py", "                    yield tuple(reversed(next(_iter)))\n", "                    yield tuple(next(_iter))\n")], ["I2"])
+seeded("c05-next-wraps-items", ["C05"], [(IT + "abstractiter.py", "        return next(self.__iter)\n", "        item = next(self.__iter)\n        return item if item is not None else next(self.__iter)\n")], ["I2"])
+seeded("c05-iterator-reads-parent", ["C05"], [(IT + "levelorderiter.py", "                    next_children += AbstractIter._get_children(child.children, stop)", "                    next_children += AbstractIter._get_children(child.parent.children if child.parent is not None else child.children, stop)")], ["I1"])
+
+SL = "anytree/node/symlinknodemixin.py"
+seeded("c19-setstate-guard-removed", ["C19"], [(SL, '        if name == "__setstate__":\n            raise AttributeError(name)\n', "")], ["P1"])
+seeded("c19-bookkeeping-guard-shrunk", ["C19", "C20"], [(SL, 'if name in ("_NodeMixin__parent", "_NodeMixin__children"):\n            return super', 'if name in ("_NodeMixin__parent",):\n            return super')], ["P1", "L1"])
+seeded("c19-setstate-returns-none", ["C19"], [(SL, '        if name == "__setstate__":\n            raise AttributeError(name)\n', '        if name == "__setstate__":\n            return None\n')], ["P1"])
+seeded("c19-getstate-added", ["C19", "C18"], [(NM, "    def _pre_detach(self, parent):\n", "    def __getstate__(self):\n        return {k: v for k, v in self.__dict__.items() if not k.startswith(\"_NodeMixin\")}\n\n    def _pre_detach(self, parent):\n")], ["P2", "M1"])
+seeded("c19-target-used-before-guards", ["C19"], [(SL, '    def __getattr__(self, name):\n        if name in', '    def __getattr__(self, name):\n        target = self.target\n        if name in')], ["P1"])
+seeded("c20-parent-not-local", ["C20"], [(SL, '"_NodeMixin__children", "parent", "children", "target"):', '"_NodeMixin__children", "children", "target"):')], ["L1"])
+seeded("c20-forward-to-self", ["C20"], [(SL, "            setattr(self.target, name, value)", "            super(SymlinkNodeMixin, self).__setattr__(name, value)")], ["L2"])
+seeded("c20-getattr-default-none", ["C20"], [(SL, "        return getattr(self.target, name)", "        return getattr(self.target, name, None)")], ["L2"])
+seeded("c20-kwargs-on-link", ["C20"], [("anytree/node/symlinknode.py", "        self.target.__dict__.update(kwargs)\n", "        self.__dict__.update(kwargs)\n")], ["L4"])
+seeded("c20-symlink-overrides-children", ["C20"], [(SL, "    def __getattr__(self, name):", "    @property\n    def children(self):\n        return self.target.children\n\n    def __getattr__(self, name):")], ["L3"])
+benign("c20-local-table-as-set", ["C20", "C19"], [(SL, 'if name in ("_NodeMixin__parent", "_NodeMixin__children", "parent", "children", "target"):', 'if name in {"_NodeMixin__parent", "_NodeMixin__children", "parent", "children", "target"}:')])
